@@ -119,6 +119,19 @@ inline void check_offsets(const rx::Registry& r, std::vector<Viol>& out) {
     generator().write_static_offsets<hx::P>(os);
     COUNT("generator_runs", 1);
     std::string text = os.str();
+    {
+        // a generator object that lives across updates must write the same
+        static generator long_lived;
+        std::ostringstream os2;
+        long_lived.write_static_offsets<hx::P>(os2);
+        COUNT("generator_runs", 1);
+        if (os2.str() != text) {
+            out.push_back(
+                {"generator_output_depends_on_its_history",
+                 "a fresh generator wrote [" + text + "] a long-lived one [" + os2.str() + "]"});
+            return;
+        }
+    }
     std::vector<ParsedOffsets> parsed;
     if (!parse_static_offsets(text, parsed) || (int)parsed.size() != r.nm) {
         out.push_back({"offsets_text_malformed", text});
